@@ -20,7 +20,7 @@ mod util;
 use engine::{Case, Report};
 use model::Model;
 
-const KINDS: &[&str] = &["kmers", "revcomp", "posmaps", "mins", "kmins", "oligo", "cov", "cgr", "oligocgr", "oligobig"];
+const KINDS: &[&str] = &["kmers", "revcomp", "posmaps", "mins", "kmins", "oligo", "cov", "cgr", "oligocgr", "oligobig", "posmapsp"];
 
 fn parse_case(line: &str) -> Option<Case> {
     let line = line.trim();
@@ -37,7 +37,7 @@ fn parse_case(line: &str) -> Option<Case> {
             // a purely numeric hex string is ambiguous: parameters come first and their number is fixed per kind
             let nparams = match *kind {
                 "kmers" | "posmaps" | "cgr" => 1,
-                "revcomp" | "mins" | "kmins" | "oligo" | "oligobig" => 2,
+                "revcomp" | "mins" | "kmins" | "oligo" | "oligobig" | "posmapsp" => 2,
                 "oligocgr" => 3,
                 "cov" => 4,
                 _ => 0,
@@ -55,6 +55,16 @@ fn parse_case(line: &str) -> Option<Case> {
     let mut c = Case::new(kind, &params, &seq, "corpus");
     c.extra = extra;
     Some(c)
+}
+
+/// the Python entry point named among a property's observation points: the same cases as C13 runs, restricted to `ops`
+#[allow(clippy::too_many_arguments)]
+fn py_part(rep: &mut Report, pid: &str, ops: &[&str], what: &str, tier: &str, seed: u64, model: &Model, corpus_lines: &[String], pymod: &str, work: &str) {
+    let py_corpus: Vec<String> = corpus_lines.iter().filter(|l| ops.iter().any(|o| l.starts_with(&format!("{} ", o)))).cloned().collect();
+    let mut py = p_py::run_py(pid, Some(ops), tier, seed, model, py_corpus, pymod, work);
+    py.rules.clear();
+    py.rules.push(format!("Python binding: {} on the module built from the working tree vs the Rust core called in-process (and the Lean transcription where the binding has its own loop)", what));
+    rep.merge(py);
 }
 
 fn load_corpus_lines(dir: &str) -> Vec<String> {
@@ -176,11 +186,20 @@ fn main() {
     let only_corpus = !replay.is_empty();
     let eff_tier = if only_corpus { "replay" } else { tier.as_str() };
     let rep: Report = match prop.as_str() {
-        "C01" => p_kmer::run_c01(eff_tier, seed, &model, corpus),
-        "C02" => p_kmer::run_c02(eff_tier, seed, &model, corpus),
+        "C01" => {
+            let mut rep = p_kmer::run_c01(eff_tier, seed, &model, corpus);
+            py_part(&mut rep, "C01", &["kmers", "kmersdel"], "KmerGenerator", eff_tier, seed, &model, &corpus_lines, &pymod, &work);
+            rep
+        }
+        "C02" => {
+            let mut rep = p_kmer::run_c02(eff_tier, seed, &model, corpus);
+            py_part(&mut rep, "C02", &["toacgt", "kmers"], "KmerGenerator.to_acgt and the iterator's pairs", eff_tier, seed, &model, &corpus_lines, &pymod, &work);
+            rep
+        }
         "C03" => {
             let mut rep = p_kmer::run_c03(eff_tier, seed, &model, corpus);
             p_cli::run_c03_cli(&mut rep, eff_tier, seed, &model, &cli_bin, &work);
+            py_part(&mut rep, "C03", &["header"], "OligoComputer(k).get_header()", eff_tier, seed, &model, &corpus_lines, &pymod, &work);
             rep
         }
         "C04" => {
@@ -189,6 +208,7 @@ fn main() {
             let mut files = p_file::run_files("C04", if eff_tier == "thorough" { "quick" } else { eff_tier }, seed, &model, corpus_lines.clone(), &work);
             files.property = "C04".into();
             rep.merge(files);
+            py_part(&mut rep, "C04", &["oligo", "obatch"], "OligoComputer.vectorise_one / vectorise_batch", eff_tier, seed, &model, &corpus_lines, &pymod, &work);
             rep
         }
         "C08" => {
@@ -239,7 +259,11 @@ fn main() {
         "C16" => p_cli::run_c16(eff_tier, seed, &model, corpus_lines, &cli_bin, &work),
         "C17" => p_cli::run_c17(eff_tier, seed, &model, corpus_lines, &cli_bin, &work),
         "C06" => p_io::run_c06(eff_tier, seed, &model, corpus_lines, &work),
-        "C09" => p_min::run_c09(eff_tier, seed, &model, corpus),
+        "C09" => {
+            let mut rep = p_min::run_c09(eff_tier, seed, &model, corpus);
+            py_part(&mut rep, "C09", &["mins", "minsdel"], "MinimiserGenerator", eff_tier, seed, &model, &corpus_lines, &pymod, &work);
+            rep
+        }
         "C18" => p_min::run_c18(eff_tier, seed, &model, corpus),
         _ => {
             eprintln!("unknown property {}", prop);
